@@ -266,6 +266,14 @@ class Sim(Layout):
             if isinstance(v, (str, list, int, float, dict, tuple, bool)) and not isinstance(v, (Sym, Obj)):
                 return isinstance(v, {"str": str, "list": list, "int": int, "float": float, "dict": dict, "tuple": tuple, "bool": bool}[n.args[1].id])
             return False
+        if isinstance(f, ast.Name) and f.id == "accumulate" and len(n.args) == 1 and not n.keywords:
+            v = self.ev(n.args[0], env, fi)
+            if isinstance(v, (list, tuple)):
+                out, acc = [], None
+                for x in v:
+                    acc = x if acc is None else self.binop(ast.Add(), acc, x)
+                    out.append(acc)
+                return out
         if isinstance(f, ast.Name) and f.id == "reversed" and len(n.args) == 1:
             v = self.ev(n.args[0], env, fi)
             if isinstance(v, (list, tuple, range)):
